@@ -16,8 +16,10 @@ import (
 )
 
 const (
-	vfErr = "$ERR" // a copy of the tracked error
-	vfNil = "$NIL" // the constant nil
+	vfErr   = "$ERR"   // a copy of the tracked error
+	vfNil   = "$NIL"   // the constant nil
+	vfTrue  = "$TRUE"  // a flag that recorded a test of the tracked error: the test held
+	vfFalse = "$FALSE" // ... did not hold
 )
 
 type vfState struct {
@@ -135,6 +137,25 @@ func (vf *valueFlow) Run(site int, errVar types.Object, initial map[types.Object
 					tested = o
 				}
 			}
+			// a flag that recorded an earlier test of the error (idle := errors.Is(err, X))
+			flagged := false
+			ast.Inspect(cond, func(x ast.Node) bool {
+				if id, ok := x.(*ast.Ident); ok {
+					if v := s.Vals[objOf(info, id)]; v == vfTrue || v == vfFalse {
+						flagged = true
+					}
+				}
+				return true
+			})
+			if tested == nil && flagged {
+				mt, mf := vf.cond3(cond, nil, s.World, s.Vals)
+				for _, e := range n.Succs {
+					if (e.Label == 1 && mt) || (e.Label == 2 && mf) {
+						push(vfState{Node: e.To, World: s.World, Vals: s.Vals})
+					}
+				}
+				continue
+			}
 			if tested != nil {
 				worlds := []string{"nil"}
 				if s.Vals[tested] == vfErr {
@@ -146,6 +167,9 @@ func (vf *valueFlow) Run(site int, errVar types.Object, initial map[types.Object
 				}
 				for _, w := range worlds {
 					mt, mf := evalErrCond(info, cond, tested, w)
+					if flagged {
+						mt, mf = vf.cond3(cond, tested, w, s.Vals)
+					}
 					nw := s.World
 					if s.Vals[tested] == vfErr {
 						nw = w
@@ -169,6 +193,46 @@ func (vf *valueFlow) Run(site int, errVar types.Object, initial map[types.Object
 			vals = clone(s.Vals)
 			switch st := n.Ast.(type) {
 			case *ast.AssignStmt:
+				// flag := <test of the tracked error>: the worlds split here, the flag records the outcome
+				if len(st.Lhs) == 1 && len(st.Rhs) == 1 {
+					if fo := objOf(info, st.Lhs[0]); fo != nil {
+						if bt, ok := fo.Type().Underlying().(*types.Basic); ok && bt.Info()&types.IsBoolean != 0 {
+							var tested types.Object
+							for o, v := range s.Vals {
+								if (v == vfErr || v == vfNil) && condMentions(info, st.Rhs[0], o) {
+									tested = o
+								}
+							}
+							if tested != nil {
+								worlds := []string{"nil"}
+								if s.Vals[tested] == vfErr && s.World != "nil" {
+									worlds = worldsFor(info, st.Rhs[0], tested, s.World)
+								}
+								for _, w := range worlds {
+									mt, mf := evalErrCond(info, st.Rhs[0], tested, w)
+									nw := s.World
+									if s.Vals[tested] == vfErr {
+										nw = w
+									}
+									for _, b := range []struct {
+										may bool
+										val string
+									}{{mt, vfTrue}, {mf, vfFalse}} {
+										if !b.may {
+											continue
+										}
+										nv := clone(s.Vals)
+										nv[fo] = b.val
+										for _, e := range n.Succs {
+											push(vfState{Node: e.To, World: nw, Vals: nv})
+										}
+									}
+								}
+								continue
+							}
+						}
+					}
+				}
 				if len(st.Lhs) == len(st.Rhs) {
 					rv := make([]string, len(st.Rhs))
 					for i, rhs := range st.Rhs {
@@ -216,4 +280,40 @@ func (vf *valueFlow) Run(site int, errVar types.Object, initial map[types.Object
 			push(vfState{Node: e.To, World: world, Vals: vals})
 		}
 	}
+}
+
+// cond3 evaluates a condition built from tests of the tracked error (in world w) and from flags that recorded
+// such tests: may it be true, may it be false.
+func (vf *valueFlow) cond3(e ast.Expr, tested types.Object, w string, vals map[types.Object]string) (mayTrue, mayFalse bool) {
+	info := vf.info
+	e = ast.Unparen(e)
+	switch x := e.(type) {
+	case *ast.Ident:
+		switch vals[objOf(info, x)] {
+		case vfTrue:
+			return true, false
+		case vfFalse:
+			return false, true
+		}
+	case *ast.UnaryExpr:
+		if x.Op == token.NOT {
+			t, f := vf.cond3(x.X, tested, w, vals)
+			return f, t
+		}
+	case *ast.BinaryExpr:
+		switch x.Op {
+		case token.LAND:
+			at, af := vf.cond3(x.X, tested, w, vals)
+			bt, bf := vf.cond3(x.Y, tested, w, vals)
+			return at && bt, af || (at && bf)
+		case token.LOR:
+			at, af := vf.cond3(x.X, tested, w, vals)
+			bt, bf := vf.cond3(x.Y, tested, w, vals)
+			return at || (af && bt), af && bf
+		}
+	}
+	if tested != nil && condMentions(info, e, tested) {
+		return evalErrCond(info, e, tested, w)
+	}
+	return true, true
 }
